@@ -239,6 +239,7 @@ class Aspire:
         self.training_samples = samples
         logger.info(f"Training with {len(samples.x)} samples")
         history = self.flow.fit(samples.x, **kwargs)
+        self._n_fits = getattr(self, "_n_fits", 0) + 1
         # A checkpoint primed by resume_from_file was weighted under the
         # previous flow and must not be resumed with the refitted one
         for name in ("_resume_from_default", "_resume_sampler_type"):
@@ -487,7 +488,15 @@ class Aspire:
             checkpoint_path = defaults["path"]
             checkpoint_every = defaults["every"]
             checkpoint_save_config = defaults["save_config"]
-        saved_flow = defaults.get("saved_flow", False) if defaults else False
+        # The flow saved by an earlier call only counts if no fit happened since
+        # (a refit may have been made in a nested context or with another path)
+        n_fits = getattr(self, "_n_fits", 0)
+        saved_flow = (
+            defaults.get("saved_flow", False)
+            and defaults.get("saved_flow_fit") == n_fits
+            if defaults
+            else False
+        )
         saved_config = (
             defaults.get("saved_config", False) if defaults else False
         )
@@ -527,6 +536,7 @@ class Aspire:
                     saved_flow = True
                     if defaults is not None:
                         defaults["saved_flow"] = True
+                        defaults["saved_flow_fit"] = n_fits
 
         samples = self._sampler.sample(n_samples, **kwargs)
         self._last_sample_posterior_kwargs = {
@@ -559,6 +569,7 @@ class Aspire:
                     self.save_flow(h5_file)
                     if defaults is not None:
                         defaults["saved_flow"] = True
+                        defaults["saved_flow_fit"] = n_fits
         if xp is not None:
             samples = samples.to_namespace(xp)
         samples.parameters = self.parameters
